@@ -73,6 +73,13 @@ func RandomCFG(r *rng.R, p CFGParams) *Spec {
 		}
 		s.Rules = append(s.Rules, rule)
 	}
+	// the same production written twice is legal (a reduce/reduce conflict the first one wins)
+	if r.Chance(1, 8) && len(s.Rules) > 0 {
+		d := s.Rules[r.Intn(len(s.Rules))]
+		d.R = append([]Sym(nil), d.R...)
+		pos := r.Intn(len(s.Rules) + 1)
+		s.Rules = append(s.Rules[:pos], append([]Rule{d}, s.Rules[pos:]...)...)
+	}
 	// group rules by lhs? no: keep the random order, rules of one lhs may be scattered (legal yacc)
 	// a used-only literal must actually be used, else it does not exist for yaccgo
 	used := map[int]bool{}
@@ -374,6 +381,10 @@ func DecorateInt(s *Spec, r *rng.R) {
 			}
 		}
 		rl.Act = e
+		// some rules do not assign $$ at all: the value of their left-hand side is then the zero value
+		if r.Chance(1, 6) {
+			rl.Act = nil
+		}
 	}
 }
 
